@@ -331,7 +331,7 @@ def run(rep):
         "round-trip digits (isShortestRT): VALIDATED by this check (against the model's roundNE, which is proved to be "
         "the unique nearest-even rounding, and independently against Python's Fraction->float and repr), not proved",
         "roundDec's shortcuts for decimal exponents beyond +-400 (overflow / zero without building the power of ten) "
-        "are justified on paper and validated against Python (C06_roundDec_correct_full is stated, not proved)",
+        "are proved (C06_huge_overflows, C06_tiny_rounds_to_zero, C06_roundDec_correct) and also validated against Python",
         "libm functions (pow exp log sin ...) are compared by outcome class only (finite / NumberOverflow / NumberNan)",
         "numbers injected by the embedding host (Value::number, native functions) are outside the property",
         "a literal whose explicit exponent does not fit i64 is rejected by the lexer (ExpOverflow) whatever its value",
